@@ -68,7 +68,7 @@ Proof.
     destruct e as [s1|s1| |]; try reflexivity.
     + destruct (end_script s1) as [s2|]; [|reflexivity]. cbv zeta.
       destruct lock as [|l lrest]; rewrite fst_pre; [apply finish_dbg_fst|apply run_lock_dbg_fst].
-    + cbv zeta. destruct lock as [|l lrest]; [reflexivity|]. rewrite fst_pre. apply run_lock_dbg_fst.
+    + cbv zeta. destruct lock as [|l lrest]; rewrite fst_pre; [apply finish_dbg_fst|apply run_lock_dbg_fst].
 Qed.
 
 (** the instrumented engine returns the verdict and the snapshots of the plain engine *)
@@ -285,9 +285,8 @@ Proof.
            ++ cbn [length count_AS]. rewrite count_AS_app. cbn. lia.
       * eapply inv_err with (q' := QAO); [cbn [lrun lstep]; exact He|reflexivity|cbn [count_AS]; lia].
     + cbv zeta. destruct lock as [|l lrest].
-      * eapply inv_err with (q' := QBS).
-        -- cbn [lrun lstep]. rewrite lrun_app, He. reflexivity.
-        -- reflexivity.
+      * eapply inv_pre; [| |apply inv_finish].
+        -- cbn [lrun lstep]. apply lrun_snoc3 with (q1 := QBO); [exact He|reflexivity].
         -- cbn [length count_AS]. rewrite count_AS_app. cbn. lia.
       * eapply inv_pre with (q1 := QLoop); [| |apply run_lock_dbg_inv; [discriminate|reflexivity]].
         -- cbn [lrun lstep]. apply lrun_snoc3 with (q1 := QBO); [exact He|reflexivity].
